@@ -6,7 +6,15 @@ package main
 
 import (
 	"bytes"
+	"context"
+	"crypto/ecdsa"
+	"crypto/elliptic"
+	"crypto/rand"
 	"crypto/sha1"
+	"crypto/tls"
+	"crypto/x509"
+	"crypto/x509/pkix"
+	"math/big"
 	dsql "database/sql"
 	"encoding/hex"
 	"errors"
@@ -360,10 +368,10 @@ func runLogin(c *lib.Ctx, cs caseT) {
 	var an, ah string
 	switch {
 	case p:
-		outTerm = "LPanic"
+		outTerm = "OPanic"
 		cs.Out = "panic: " + pv
 	case err != nil:
-		outTerm = "Deny"
+		outTerm = "ODeny"
 		cs.Out = "deny: " + err.Error()
 	default:
 		u, ok := g.(sql.MysqlConnectionUser)
@@ -373,7 +381,7 @@ func runLogin(c *lib.Ctx, cs caseT) {
 			return
 		}
 		accepted, an, ah = true, u.User, u.Host
-		outTerm = fmt.Sprintf("(Accept %s %s)", lib.CoqStr(an), lib.CoqStr(ah))
+		outTerm = fmt.Sprintf("(OAccept %s %s)", lib.CoqStr(an), lib.CoqStr(ah))
 		cs.Out = fmt.Sprintf("accept as %q@%q", an, ah)
 	}
 	if p2 {
@@ -457,6 +465,148 @@ func runLogin(c *lib.Ctx, cs caseT) {
 	}
 }
 
+// ---------- caching_sha2_password over TLS: password changes take effect immediately ----------
+func selfSigned() (tls.Certificate, error) {
+	key, err := ecdsa.GenerateKey(elliptic.P256(), rand.Reader)
+	if err != nil {
+		return tls.Certificate{}, err
+	}
+	tmpl := &x509.Certificate{SerialNumber: big.NewInt(1), Subject: pkix.Name{CommonName: "127.0.0.1"},
+		NotBefore: time.Now().Add(-time.Hour), NotAfter: time.Now().Add(24 * time.Hour),
+		KeyUsage: x509.KeyUsageDigitalSignature | x509.KeyUsageKeyEncipherment, ExtKeyUsage: []x509.ExtKeyUsage{x509.ExtKeyUsageServerAuth},
+		IPAddresses: []net.IP{net.ParseIP("127.0.0.1")}}
+	der, err := x509.CreateCertificate(rand.Reader, tmpl, tmpl, &key.PublicKey, key)
+	if err != nil {
+		return tls.Certificate{}, err
+	}
+	return tls.Certificate{Certificate: [][]byte{der}, PrivateKey: key}, nil
+}
+
+var tlsCert *tls.Certificate
+
+// tryLogin: "ok", "denied" (1045) or "error: ..."
+func tryLogin(port, user, pw string, useTLS bool) string {
+	cfg := gomysql.NewConfig()
+	cfg.User, cfg.Passwd, cfg.Net, cfg.Addr = user, pw, "tcp", "127.0.0.1:"+port
+	cfg.Timeout, cfg.ReadTimeout = 5*time.Second, 10*time.Second
+	if useTLS {
+		cfg.TLS = &tls.Config{InsecureSkipVerify: true}
+	}
+	connector, err := gomysql.NewConnector(cfg)
+	if err != nil {
+		return "error: " + err.Error()
+	}
+	conn := dsql.OpenDB(connector)
+	defer conn.Close()
+	var one int
+	if err = conn.QueryRow("SELECT 1").Scan(&one); err != nil {
+		var me *gomysql.MySQLError
+		if errors.As(err, &me) && me.Number == 1045 {
+			return "denied"
+		}
+		return "error: " + err.Error()
+	}
+	return "ok"
+}
+
+// runSha2: an account with plugin cs.Pat (caching_sha2_password or mysql_native_password) and a sequence of password
+// changes (cs.Users[i].Auth = i-th password, set by CREATE USER / ALTER USER run by root); after every change, logins over TLS
+// with every password used so far: exactly the current one is accepted (twice in a row: a server-side fast-auth cache is
+// filled by the first successful login).
+func runSha2(c *lib.Ctx, cs caseT) {
+	if tlsCert == nil {
+		cert, err := selfSigned()
+		if err != nil {
+			panic(err)
+		}
+		tlsCert = &cert
+	}
+	pro := memory.NewDBProvider(memory.NewDatabase("db"))
+	e := sqle.NewDefault(pro)
+	mdb := e.Analyzer.Catalog.MySQLDb
+	mdb.AddRootAccount()
+	mdb.SetPersister(&mysql_db.NoopPersister{})
+	rootCtx := func() *sql.Context {
+		base := sql.NewBaseSessionWithClientServer("srv", sql.Client{User: "root", Address: "localhost"}, 1)
+		return sql.NewContext(context.Background(), sql.WithSession(memory.NewSession(base, pro)))
+	}
+	exec := func(q string) error {
+		ctx := rootCtx()
+		_, iter, _, err := e.Query(ctx, q)
+		if err != nil {
+			return err
+		}
+		for {
+			if _, err = iter.Next(ctx); err != nil {
+				break
+			}
+		}
+		return iter.Close(ctx)
+	}
+	srv, err := server.NewServer(server.Config{Protocol: "tcp", Address: "127.0.0.1:0", TLSConfig: &tls.Config{Certificates: []tls.Certificate{*tlsCert}}},
+		e, sql.NewContext, memory.NewSessionBuilder(pro), nil)
+	if err != nil {
+		id := c.CaseNoModel(cs, "")
+		c.PredFail(id, "wire/server-start-failed", err.Error(), cs)
+		return
+	}
+	go srv.Start()
+	defer srv.Close()
+	_, port, _ := net.SplitHostPort(srv.Listener.Addr().String())
+	plugin := cs.Pat
+	var log []string
+	fail := ""
+	var used []string
+	for i, a := range cs.Users {
+		pw := a.Auth
+		q := fmt.Sprintf("ALTER USER 'cs'@'%%' IDENTIFIED WITH %s BY '%s'", plugin, pw)
+		if i == 0 {
+			q = fmt.Sprintf("CREATE USER 'cs'@'%%' IDENTIFIED WITH %s BY '%s'", plugin, pw)
+		}
+		if err := exec(q); err != nil {
+			id := c.CaseNoModel(cs, "")
+			c.PredFail(id, "wire/password-statement-failed", q+": "+err.Error(), cs)
+			return
+		}
+		seen := false
+		for _, u := range used {
+			seen = seen || u == pw
+		}
+		if !seen {
+			used = append(used, pw)
+		}
+		// old passwords first (before any login with the new one), then the new one twice, then the old ones again
+		order := append(append([]string{}, used...), pw, pw)
+		order = append(order, used...)
+		for _, try := range order {
+			got := tryLogin(port, "cs", try, true)
+			want := "denied"
+			if try == pw {
+				want = "ok"
+			}
+			log = append(log, fmt.Sprintf("after %q: login with %q -> %s", pw, try, got))
+			if got != want && fail == "" {
+				switch {
+				case strings.HasPrefix(got, "error"):
+					fail = "wire/login-failed-with-another-error"
+				case got == "ok":
+					fail = "wire/" + plugin + "/old-password-accepted-after-password-change"
+				default:
+					fail = "wire/" + plugin + "/current-password-rejected"
+				}
+				cs.Out = log[len(log)-1]
+			}
+		}
+		c.Count("pwchange/" + plugin)
+	}
+	cs.Note = strings.Join(log, "; ")
+	id := c.CaseNoModel(cs, fmt.Sprintf("pw|%s|%v", plugin, cs.Users))
+	c.PredChecked()
+	if fail != "" {
+		c.PredFail(id, fail, cs.Out+" (full sequence: "+cs.Note+")", cs)
+	}
+}
+
 func run(c *lib.Ctx, cs caseT) {
 	switch cs.Kind {
 	case "validate":
@@ -467,6 +617,8 @@ func run(c *lib.Ctx, cs caseT) {
 		runSha(c, cs)
 	case "login", "wire":
 		runLogin(c, cs)
+	case "pwchange":
+		runSha2(c, cs)
 	default:
 		panic("unknown case kind " + cs.Kind)
 	}
@@ -476,9 +628,11 @@ func run(c *lib.Ctx, cs caseT) {
 var pws = []string{"pw", "secret", "p", "pässwort", "123456", "", "a b", "x'y"}
 var names = []string{"u", "v", "", "root", "bob"}
 var acctHosts = []string{"%", "localhost", "127.0.0.1", "::1", "10.0.0.5", "10.%", "10.0.%", "%.example.com",
-	"host.example.com", "%.com", "10.0.0.%", "1%5", "127.%", "%::1", "local%", "192.168.1.1", "%.%.%.%"}
+	"host.example.com", "%.com", "10.0.0.%", "1%5", "127.%", "%::1", "local%", "192.168.1.1", "%.%.%.%",
+	// one '%' in the middle whose literal prefix and suffix overlap in a short host: must NOT match that host
+	"::%:1", "fe80::%::1", "127.0.%0.0.1", "local%alhost", "10.%0.0.5"}
 var clientHosts = []string{"@unix", "localhost", "127.0.0.1", "::1", "10.0.0.5", "10.1.2.3", "host.example.com",
-	"192.168.1.1", "other.org", "105", "a.b.com"}
+	"192.168.1.1", "other.org", "105", "a.b.com", "fe80::1", "fe80::::1"}
 
 func randBytes(r *lib.RNG, n int) []byte {
 	b := make([]byte, n)
@@ -572,8 +726,32 @@ func genValidate(r *lib.RNG) caseT {
 
 var patAlpha = []string{"%", "%", "1", "0", ".", "a", "b", "com", "10.", "x", "\n", "*", "+", "(", "\\", "é"}
 
+// genOverlap: pattern = prefix % suffix where prefix ends with what suffix starts with; hosts: the two glued with the
+// overlap shared (must not match), glued without sharing (matches), with filler (matches), truncated variants
+func genOverlap(r *lib.RNG) (pat, host string) {
+	ov := lib.Pick(r, []string{":", "::", "a", "ab", ".", "0.", "1", ".0.0"})
+	pre := lib.Pick(r, []string{"", ":", "fe80", "10.", "x", "127.0"}) + ov
+	suf := ov + lib.Pick(r, []string{"", "1", ":1", "b", ".1", "com"})
+	pat = pre + "%" + suf
+	switch r.Intn(6) {
+	case 0, 1, 2:
+		host = pre + suf[len(ov):] // overlap shared: shorter than prefix+suffix
+	case 3:
+		host = pre + suf
+	case 4:
+		host = pre + lib.Pick(r, []string{"z", ov, "0", "::"}) + suf
+	default:
+		host = pre[:len(pre)-1] + suf
+	}
+	return
+}
+
 func genHostPat(r *lib.RNG) caseT {
 	var pat, host string
+	if r.Chance(1, 4) {
+		pat, host = genOverlap(r)
+		return caseT{Kind: "hostpat", Host: host, Pat: pat, Note: "mid-pattern wildcard, overlapping prefix/suffix"}
+	}
 	if r.Chance(1, 3) {
 		pat, host = lib.Pick(r, acctHosts), lib.Pick(r, clientHosts)
 		if host == "@unix" {
@@ -678,7 +856,7 @@ func genWire(r *lib.RNG) caseT {
 		a := &cs.Users[i]
 		a.Plugin = native
 		if r.Chance(1, 2) {
-			a.Host = lib.Pick(r, []string{"localhost", "127.0.0.1", "::1", "%", "127.%", "local%", "%.0.0.1", "10.%", "%host"})
+			a.Host = lib.Pick(r, []string{"localhost", "127.0.0.1", "::1", "%", "127.%", "local%", "%.0.0.1", "10.%", "%host", "127.0.%0.0.1", "local%alhost", "::%:1", "127.%.1", "l%t"})
 		}
 		a.Auth = stored(lib.Pick(r, pws))
 	}
@@ -710,9 +888,24 @@ func genWire(r *lib.RNG) caseT {
 	return cs
 }
 
+func genPwChange(r *lib.RNG) caseT {
+	cs := caseT{Kind: "pwchange", Pat: "caching_sha2_password"}
+	if r.Chance(1, 4) {
+		cs.Pat = native
+	}
+	n := r.Range(2, 4)
+	for i := 0; i < n; i++ {
+		cs.Users = append(cs.Users, acct{Auth: lib.Pick(r, []string{"pw1", "pw2", "secret", "123456", "p"})})
+	}
+	return cs
+}
+
 func gen(r *lib.RNG) caseT {
 	if r.Chance(1, 12) {
 		return genWire(r)
+	}
+	if r.Chance(1, 60) {
+		return genPwChange(r)
 	}
 	switch k := r.Intn(20); {
 	case k < 6:
@@ -747,11 +940,11 @@ func main() {
 		salt := []byte{1, 2, 3, 4, 5, 6, 7, 8, 9, 10, 11, 12, 13, 14, 15, 16, 17, 18, 19, 20}
 		u := acct{Name: "u", Host: "10.%", Auth: stored("pw"), Plugin: native}
 		corpus := []caseT{
-			// the known finding: non-empty response shorter than 20 bytes
-			{Kind: "validate", Resp: []byte{1}, Salt: nil, Auth: "*00", Note: "coq witness of C40_malformed_response_rejected_refuted"},
+			// the defect fixed by a87f03e51 (kept: it must stay fixed): non-empty response shorter than 20 bytes
+			{Kind: "validate", Resp: []byte{1}, Salt: nil, Auth: "*00", Note: "former panic witness"},
 			{Kind: "validate", Resp: honest(salt, "pw")[:19], Salt: salt, Auth: stored("pw"), Note: "19 of 20 honest bytes"},
-			{Kind: "login", Enabled: true, Users: []acct{{Name: "u", Host: "%", Auth: "*00", Plugin: native}}, Name: "u", Host: "h", Salt: nil, Resp: []byte{1}, Note: "coq witness of C40_login_malformed_rejected_refuted"},
-			{Kind: "login", Enabled: true, Users: []acct{u}, Name: "u", Host: "10.0.0.5", Salt: salt, Resp: []byte{1, 2, 3}, Note: "nonvacuous: panic"},
+			{Kind: "login", Enabled: true, Users: []acct{{Name: "u", Host: "%", Auth: "*00", Plugin: native}}, Name: "u", Host: "h", Salt: nil, Resp: []byte{1}, Note: "former panic witness (login)"},
+			{Kind: "login", Enabled: true, Users: []acct{u}, Name: "u", Host: "10.0.0.5", Salt: salt, Resp: []byte{1, 2, 3}, Note: "nonvacuous: truncated response"},
 			// ordinary behaviour
 			{Kind: "validate", Resp: honest(salt, "pw"), Salt: salt, Auth: stored("pw")},
 			{Kind: "validate", Resp: honest(salt, "px"), Salt: salt, Auth: stored("pw")},
@@ -768,6 +961,16 @@ func main() {
 			{Kind: "wire", Enabled: true, Users: []acct{{Name: "u", Host: "127.%", Auth: stored("pw"), Plugin: native}}, Name: "u", Host: "127.0.0.1", Salt: salt, Pw: "px"},
 			{Kind: "wire", Enabled: true, Users: []acct{{Name: "u", Host: "localhost", Auth: stored("pw"), Locked: true, Plugin: native}}, Name: "u", Host: "127.0.0.1", Salt: salt, Pw: "pw"},
 			{Kind: "wire", Enabled: true, Users: []acct{{Name: "", Host: "%", Auth: "", Plugin: native}, {Name: "v", Host: "10.%", Auth: stored("pw"), Plugin: native}}, Name: "bob", Host: "127.0.0.1", Salt: salt, Pw: ""},
+			{Kind: "pwchange", Pat: "caching_sha2_password", Users: []acct{{Auth: "pw1"}, {Auth: "pw2"}}},
+			{Kind: "pwchange", Pat: "caching_sha2_password", Users: []acct{{Auth: "pw1"}, {Auth: "pw2"}, {Auth: "pw1"}}},
+			{Kind: "pwchange", Pat: native, Users: []acct{{Auth: "pw1"}, {Auth: "pw2"}}},
+			{Kind: "hostpat", Host: "::1", Pat: "::%:1", Note: "overlap: must not match"},
+			{Kind: "hostpat", Host: "fe80::1", Pat: "fe80::%::1", Note: "overlap: must not match"},
+			{Kind: "hostpat", Host: "fe80::x::1", Pat: "fe80::%::1"},
+			{Kind: "hostpat", Host: ":::1", Pat: "::%:1"},
+			{Kind: "login", Enabled: true, Users: []acct{{Name: "carol", Host: "::%:1", Auth: stored("pw"), Plugin: native}}, Name: "carol", Host: "::1", Salt: salt, Resp: honest(salt, "pw"), Note: "overlap: account must not match"},
+			{Kind: "login", Enabled: true, Users: []acct{{Name: "dave", Host: "fe80::%::1", Auth: stored("pw"), Plugin: native}}, Name: "dave", Host: "fe80::1", Salt: salt, Resp: honest(salt, "pw"), Note: "overlap: account must not match"},
+			{Kind: "wire", Enabled: true, Users: []acct{{Name: "u", Host: "127.0.%0.0.1", Auth: stored("pw"), Plugin: native}}, Name: "u", Host: "127.0.0.1", Salt: salt, Pw: "pw", Note: "overlap: account must not match"},
 			{Kind: "hostpat", Host: "10.0.0.5", Pat: "10.%"},
 			{Kind: "hostpat", Host: "a\nb", Pat: "a%b"},
 			{Kind: "hostpat", Host: "10x0", Pat: "10.%"},
